@@ -332,6 +332,51 @@ def _isint(A, x):
     return Fraction(x).denominator == 1
 
 
+def h_dense_symbound(op, bu, eu, unit, mode, n):
+    """dense time: the two bounds of one bounded operator are ARBITRARY reals 0 <= B <= E (solver variables), written with units bu/eu and
+    default unit `unit`; time-stamps are in the default unit.  z3 decides for all bounds, time-stamps, values and instants that the result is
+    the dense-time semantics of the window [B*ub/u, E*ue/u] (the unit factors as the doubles rtamt computes; their rounding is outside the claim)"""
+    f0 = _f(op, 1, 2)
+    vs = sorted(variables(f0))
+    du = unit or 's'
+    if not bu and not eu:
+        ub = ue = U[du]
+    else:
+        ub = U[bu or eu]
+        ue = U[eu or bu]
+
+    def body(env):
+        A = env.A
+        s = ct.make_spec('combined', 'out = ' + OPS[op] % ('[1%s,2%s]' % (bu, eu)), vs, unit=unit)
+        B, E = env.real('B'), env.real('E')
+        env.assume(A.And(A.le(0, B), A.le(B * (ub / U[du]), E * (ue / U[du]))))
+        nodes = list(s.ast.specs)
+        while nodes:
+            nd = nodes.pop()
+            if hasattr(nd, 'begin_unit'):
+                nd.begin, nd.end = B, E
+            nodes.extend(nd.children)
+        sigs = {v: ct.signal(env, v, n, 'zero') for v in vs}            # time-stamps in the default unit
+        args = [[v, [list(p) for p in sigs[v]]] for v in vs]
+        out = s.evaluate(*args) if mode == 'offline' else s.update(*args)
+        out = [list(p) for p in out]
+        env.observe('out', out)
+        if not out:
+            return [('nonempty', A.bool(mode == 'online'))]
+        S, Eend = refct.domain(A, [sigs[v] for v in vs])
+        tau = env.real('tau')
+        env.assume(A.And(A.le(S, tau), A.le(tau, Eend), A.le(out[0][0], tau)))
+        if mode == 'online':
+            env.assume(A.le(tau, out[-1][0]))
+        a, b = B * (ub / U[du]), E * (ue / U[du])
+        if len(vs) == 2:
+            want = refct.ref_binary(A, op, sigs['x'], sigs['y'], tau, S, a, b)
+        else:
+            want = refct.ref_unary(A, op, sigs['x'], tau, a, b)
+        return [('dense-symbolic-bounds', A.eq(refct.val(A, out, tau), want))]
+    return body
+
+
 def h_nonmultiple(op, itext, unit, period, mode):
     vs = ['x', 'y'] if op in ('since_t', 'until_t', 'unless_t') else ['x']
 
@@ -455,6 +500,12 @@ def obligations(tier, rng):
                 for mode in (['offline'] if op in ('eventually_t', 'always_t', 'until_t', 'unless_t') else ['offline', 'online']):
                     out.append(ob('C08', 'symbound', 'symbound/%s/%s[B%s,E%s]/unit=%s/P=%d%s' % (mode, op, bu, eu, unit, period[0], period[1]), op=op, bu=bu, eu=eu,
                                   unit=unit, period=list(period), mode=mode, max_paths=2000, wall=600))
+    for op in (['once_t', 'eventually_t'] if quick else ['once_t', 'historically_t', 'eventually_t', 'always_t']):
+        for bu, eu in ([('', ''), ('ms', 's'), ('', 'ms'), ('us', '')] if quick else [(b_, e_) for b_ in ('', 's', 'ms', 'us') for e_ in ('', 's', 'ms', 'us')]):
+            for unit in ((None, 'ms') if quick else (None, 'ms', 'us')):
+                for mode in (['offline'] if op in ('eventually_t', 'always_t') else ['offline', 'online']):
+                    out.append(ob('C08', 'dense_symbound', 'ct-symbound/%s/%s[B%s,E%s]/unit=%s' % (mode, op, bu, eu, unit), op=op, bu=bu, eu=eu, unit=unit, mode=mode, n=2,
+                                  max_paths=20000, wall=600))
     # one object, configured twice (same number in another unit; another number; a configuration under which a bound is off the grid)
     for txt, mk in [('once[0:2000us](x)', lambda a, b: ('once_t', X, a, b)), ('always[1000us:2ms](x)', lambda a, b: ('always_t', X, a, b)),
                     ('(x) since[0:2ms] (y)', lambda a, b: ('since_t', X, Y, a, b)), ('historically[2ms:4000us](x)', lambda a, b: ('historically_t', X, a, b))]:
